@@ -51,7 +51,7 @@ ADD_CHANGE = {'AddField': 4, 'ChangeField': 6, 'DeleteField': 0,
               'DeleteModel': 0, 'NewModel': 0, 'SQLMutation': 0}
 
 
-def is_mergeable_only(scn):
+def is_mergeable_only(scn, any_models=False):
     models = set()
     for m in scn['muts']:
         op = m['op']
@@ -70,7 +70,7 @@ def is_mergeable_only(scn):
         elif op != 'ChangeMeta':
             return False
         models.add(m['model'])
-    return len(models) == 1
+    return len(models) >= 1 if any_models else len(models) == 1
 
 
 def generate(seed, index, tier):
@@ -78,9 +78,13 @@ def generate(seed, index, tier):
     if rng.random() < 0.5:
         scn = c03.gen_scenario(rng)
     else:
-        scn = c03.gen_scenario(rng, dense=False, one_model=True,
-                               ops=ADD_CHANGE if rng.random() < 0.4
-                               else MERGEABLE)
+        add_change = rng.random() < 0.4
+        # (half of the add/change-only sequences interleave two models:
+        # the optimiser regroups them per model, one rebuild per table)
+        scn = c03.gen_scenario(rng, dense=False,
+                               one_model=not (add_change and
+                                              rng.random() < 0.5),
+                               ops=ADD_CHANGE if add_change else MERGEABLE)
         # no type changes / db_column in the dedicated configuration
         scn['muts'] = [m for m in scn['muts']
                        if not (m['op'] == 'ChangeField' and (
@@ -144,11 +148,15 @@ def execute(scn):
             if ca[t] > cb.get(t, 0):
                 viols.append(violation('C18.more_rebuilds_than_unbatched',
                                        table=t, **detail))
-    if mergeable:
+    several = not mergeable and is_mergeable_only(scn, any_models=True)
+    if several:
+        stats['mergeable_only_several_models'] = 1
+    if mergeable or several:
         for t in sorted(ca):
             if ca[t] > 1:
                 viols.append(violation('C18.not_single_rebuild', table=t,
-                                       count=ca[t], **detail))
+                                       count=ca[t], interleaved=several,
+                                       **detail))
     if sum(ca.values()) < sum(cb.values()):
         stats['optimiser_saved_rebuilds'] = 1
     if len(scn.get('cuts') or []):
